@@ -51,7 +51,7 @@ inductive Tag where
   | tooSoon | tooLong | windowSmall | hostValidAddr | hostMissedAddr | voidAddress | voidValue
   | hostValidSmall | hostValidNeMissed | excessiveCollateral | windowEndShrinks
   | voidNeBurn | validBelowBase
-  | hostMissedSmall | afterHardfork | renterSig | fundCost
+  | hostMissedSmall | afterHardfork | renterSig | fundCost | budget | sessionOver
 deriving DecidableEq, Repr
 
 /-- panic sites, grouped by root cause (`Site.label`) -/
@@ -802,5 +802,62 @@ def siteClauses (s : SignSite) (i : SiteIn) (r : Rev) (credited : Nat) : List (S
        ("covers_fund_cost", decide (i.price ≤ paid i.cur r)),
        ("credited_is_paid", decide (credited + i.price = paid i.cur r))]
   | _ => []
+
+/-! ### sessions: several revising RPCs against one contract
+
+An RHP2 session caches the revision of the locked contract (`session.contract`): `rpcLock` sets it from the
+contract manager, every revising handler validates the renter's proposal against it, commits the new revision
+to the store and must then refresh the cache (`s.contract = signedRevision`).  The RHP3 program executor
+caches the revision it got from `contracts.Lock` until finalisation.  `Sess` is that pair of revisions. -/
+
+structure Sess where
+  cached : Rev     -- what the session / executor believes the current revision to be
+  stored : Rev     -- what the host's store holds
+deriving Repr
+
+/-- facts about the handlers: does the handler refresh the cached revision after its commit?
+(`s.contract = signedRevision` in rpcSectorRoots, rpcRead, rpcWrite) -/
+structure SessFacts where
+  refresh : SignSite → Bool
+
+/-- the code as it is: every revising RHP2 handler refreshes the cache -/
+def codeFacts : SessFacts := { refresh := fun _ => true }
+
+/-- `rpcLock` (after `rpcUnlock`) / `contracts.Lock`: the cache is what the store holds -/
+def sessLock (s : Sess) : Sess := { s with cached := s.stored }
+
+/-- one revising RPC: validated against the CACHED revision, committed to the store -/
+def sessStep (fx : Bool) (F : SessFacts) (site : SignSite) (s : Sess) (i : SiteIn) : Sess × Res (Rev × Nat) :=
+  match signRevise fx site { i with cur := s.cached } with
+  | .ok (r, cr) => ({ cached := if F.refresh site then r else s.cached, stored := r }, .ok (r, cr))
+  | .reject t => (s, .reject t)
+  | .panic p => (s, .panic p)
+
+/-- a two-RPC RHP2 session: Lock, RPC 1, optionally Unlock+Lock, RPC 2.  A failed RPC ends the session
+(`upgrade` returns on the first `rpcLoop` error): the second result is then `reject sessionOver`. -/
+def session2 (fx : Bool) (F : SessFacts) (c : Rev) (k1 k2 : SignSite) (i1 i2 : SiteIn) (relock : Bool) :
+    Res (Rev × Nat) × Res (Rev × Nat) :=
+  let s0 := sessLock { cached := c, stored := c }
+  let (s1, r1) := sessStep fx F k1 s0 i1
+  match r1 with
+  | .ok _ =>
+    let s1 := if relock then sessLock s1 else s1
+    (r1, (sessStep fx F k2 s1 i2).2)
+  | _ => (r1, .reject .sessionOver)
+
+/-- RHP3 `RPCExecuteProgram` paid by contract: the payment revises the contract, then the handler locks
+the contract (`lockAfterPayment`: the executor's cached revision is what the store holds now), runs the
+program if the budget (`need`) suffices, and finalises against the cached revision. -/
+def execByContract (fx : Bool) (lockAfterPayment : Bool) (c : Rev) (i1 i2 : SiteIn) (need : Nat) :
+    Res (Rev × Nat) × Res (Rev × Nat) :=
+  let s0 : Sess := { cached := c, stored := c }
+  let (s1, r1) := sessStep fx codeFacts .rhp3Pay (sessLock s0) i1
+  match r1 with
+  | .ok (_, amount) =>
+    -- processContractPayment does not refresh anything: the executor's revision comes from the Lock that follows
+    let s1 : Sess := { cached := if lockAfterPayment then s1.stored else c, stored := s1.stored }
+    if amount < need then (r1, .reject .budget)
+    else (r1, (sessStep fx codeFacts .rhp3Finalize s1 i2).2)
+  | _ => (r1, .reject .sessionOver)
 
 end Hostd.Revision
